@@ -27,7 +27,7 @@ ASSUMPTIONS = [
     "reference B6 (DESIGN.md Appendix B6): flags, delegation index and bounds as functions of content",
     "flags and the delegation index are read from the committed version object (version.nodes[*].flags, version.delegations)",
 ]
-REQUIRED = ["mon.replacement_transactions", "mon.flags_from_content", "mon.delegation_index", "mon.iteration_order", "mon.bounds_query", "mon.histories_with_nested_cuts", "mon.histories_with_cname_at_cut"]
+REQUIRED = ["mon.histories_with_multi_operation_transactions", "mon.replacement_transactions", "mon.flags_from_content", "mon.delegation_index", "mon.iteration_order", "mon.bounds_query", "mon.histories_with_nested_cuts", "mon.histories_with_cname_at_cut"]
 BUDGET = {"quick": 40.0, "thorough": 420.0}
 
 ORIGIN = (b"example", b"")
@@ -265,7 +265,7 @@ def history(ctx, rng):
         return
     if not check_version(ctx, z, ref, relativize, case, tag, rng, "load"):
         return
-    nested_seen = cname_seen = False
+    nested_seen = cname_seen = multi_seen = False
     for step in range(rng.randint(3, 14)):
         n = rng.choice(pool)
         ln = dns.name.Name(n)
@@ -292,51 +292,63 @@ def history(ctx, rng):
                             txn.add(lnn, 300, rd_for(tt, tagn))
                         ref.add(fold(nn), tt)
             with z.writer() as txn:
-                if kind == "reload":
-                    pass
-                elif kind == "rrsig":
-                    # RRSIG(CNAME) counts as a CNAME for the other-data rule and evicts an NS at a cut; RRSIG(A) is ordinary data
-                    cov = rng.choice((5, 5, 1))
-                    if cov == 5 and 2 in ref.c.get(fold(n), ()):
-                        cname_seen = True
-                    txn.add(ln, 300, rd_for((46, cov), tagn))
-                    ref.add(fold(n), (46, cov))
-                elif kind == "add_ns":
-                    txn.add(ln, 300, rd_for(2, tagn))
-                    ref.add(fold(n), 2)
-                elif kind == "replace_ns":
-                    txn.replace(ln, 300, rd_for(2, tagn))
-                    ref.add(fold(n), 2)
-                elif kind == "del_ns":
-                    txn.delete(ln, "NS")
-                    ref.delete(fold(n), 2)
-                elif kind == "add_other":
-                    t = rng.choice((1, 16, 15, 28, 43 if n != ORIGIN else 1))
-                    txn.add(ln, 300, rd_for(t, tagn))
-                    ref.add(fold(n), t)
-                elif kind == "del_other":
-                    t = rng.choice((1, 16, 15, 28))
-                    txn.delete(ln, t)
-                    ref.delete(fold(n), t)
-                elif kind == "del_node":
-                    txn.delete(ln)
-                    ref.delete(fold(n))
-                elif kind == "cname":
-                    if 2 in ref.c.get(fold(n), ()):
-                        cname_seen = True
-                    txn.add(ln, 300, rd_for(5, tagn))
-                    ref.add(fold(n), 5)
-                elif kind == "add_below":
-                    below = (rng.choice(LABELS),) + n
-                    if RN.fits(below):
-                        bl = dns.name.Name(below)
-                        if relativize:
-                            bl = bl.relativize(origin)
-                        t = rng.choice((1, 2, 16))
-                        txn.add(bl, 300, rd_for(t, tagn))
-                        ref.add(fold(below), t)
-                        if below not in pool:
-                            pool.append(below)
+                # one to three operations in the same transaction, often at the same name or right next to it: the flags are
+                # re-derived when a node is copied for writing, which happens once per name and transaction
+                for opi in range(1 if kind == "reload" else rng.choice((1, 1, 2, 3))):
+                    if opi > 0:
+                        if rng.random() < 0.5:
+                            n = rng.choice(pool)
+                            ln = dns.name.Name(n).relativize(origin) if relativize else dns.name.Name(n)
+                        kind = rng.choice(("add_ns", "del_ns", "del_ns", "add_other", "del_other", "del_node", "replace_ns", "cname", "add_below", "rrsig"))
+                        if n == ORIGIN and kind in ("del_node", "cname", "del_ns", "rrsig"):
+                            kind = "add_other"
+                        tagn += 1
+                        multi_seen = True
+                    if kind == "reload":
+                        pass
+                    elif kind == "rrsig":
+                        # RRSIG(CNAME) counts as a CNAME for the other-data rule and evicts an NS at a cut; RRSIG(A) is ordinary data
+                        cov = rng.choice((5, 5, 1))
+                        if cov == 5 and 2 in ref.c.get(fold(n), ()):
+                            cname_seen = True
+                        txn.add(ln, 300, rd_for((46, cov), tagn))
+                        ref.add(fold(n), (46, cov))
+                    elif kind == "add_ns":
+                        txn.add(ln, 300, rd_for(2, tagn))
+                        ref.add(fold(n), 2)
+                    elif kind == "replace_ns":
+                        txn.replace(ln, 300, rd_for(2, tagn))
+                        ref.add(fold(n), 2)
+                    elif kind == "del_ns":
+                        txn.delete(ln, "NS")
+                        ref.delete(fold(n), 2)
+                    elif kind == "add_other":
+                        t = rng.choice((1, 16, 15, 28, 43 if n != ORIGIN else 1))
+                        txn.add(ln, 300, rd_for(t, tagn))
+                        ref.add(fold(n), t)
+                    elif kind == "del_other":
+                        t = rng.choice((1, 16, 15, 28))
+                        txn.delete(ln, t)
+                        ref.delete(fold(n), t)
+                    elif kind == "del_node":
+                        txn.delete(ln)
+                        ref.delete(fold(n))
+                    elif kind == "cname":
+                        if 2 in ref.c.get(fold(n), ()):
+                            cname_seen = True
+                        txn.add(ln, 300, rd_for(5, tagn))
+                        ref.add(fold(n), 5)
+                    elif kind == "add_below":
+                        below = (rng.choice(LABELS),) + n
+                        if RN.fits(below):
+                            bl = dns.name.Name(below)
+                            if relativize:
+                                bl = bl.relativize(origin)
+                            t = rng.choice((1, 2, 16))
+                            txn.add(bl, 300, rd_for(t, tagn))
+                            ref.add(fold(below), t)
+                            if below not in pool:
+                                pool.append(below)
         except Exception as e:
             ctx.violation(f"transaction-raised:{tag}:{kind}:" + core.exc_sig(e), f"{e!r}", case)
             return
@@ -346,6 +358,8 @@ def history(ctx, rng):
             nested_seen = True
         if not check_version(ctx, z, ref, relativize, case, tag, rng, kind):
             return
+    if multi_seen:
+        ctx.count("mon.histories_with_multi_operation_transactions")
     if nested_seen:
         ctx.count("mon.histories_with_nested_cuts")
     if cname_seen:
